@@ -15,7 +15,7 @@ def worker_arms(ctx, rule):
     body = ctx.anchor(rule, WORKER)
     if body is None:
         return None, {}
-    arms = {}
+    cands = {}
     for x in sorted(body.live_blocks()):
         t = body.blocks[x]['t']
         if t['k'] != 'switch':
@@ -26,7 +26,13 @@ def worker_arms(ctx, rule):
             c = Cond(body, x, tg)
             if c.kind == 'discr' and 'track::store::Commands' in getattr(c, 'enum_ty', ''):
                 if len(c.variants) == 1:
-                    arms[list(c.variants)[0]] = tg
+                    cands.setdefault(list(c.variants)[0], []).append((x, tg))
+    # the dispatch is the FIRST test of the command's discriminant (later ones - drop elaboration of a partially
+    # moved payload at the end of the iteration - are dominated by it)
+    arms = {}
+    for v, xs in cands.items():
+        best = [(x, tg) for x, tg in xs if all(body.dominates(x, y) for y, _ in xs)]
+        arms[v] = (best or xs)[0][1]
     return body, arms
 
 
@@ -322,8 +328,11 @@ def rule_merge_routing(ctx, R):
     for c in sends:
         e = eb.operand(c.args[1])
         aggs = [x for x in e.walk() if x.kind == 'agg' and x.name.endswith('Commands::Merge')]
-        ok = bool(aggs) and aggs[0].args[0].strip().kind == 'place' and aggs[0].args[0].strip().root == ('param', 2) \
-            and aggs[0].args[1].strip().root == ('param', 3) if aggs and aggs[0].args[1].strip().kind == 'place' else False
+        from lib import payload_leaves
+        lv = [l_.strip() for _p, l_ in payload_leaves(aggs[0])] if aggs else []
+        # (the command carries the destination id and the source track, however the payload is packaged)
+        ok = any(l_.kind == 'place' and l_.root == ('param', 2) and not l_.fields for l_ in lv) and \
+            any(l_.kind == 'place' and l_.root == ('param', 3) for l_ in lv)
         n += 1
         ctx.check(ok, R, b, 'merge:command-carries-dest-and-src', 'Commands::Merge(dest_id, src, ..)',
                   'Commands::Merge is not built from (dest_id, src): %r' % (aggs[0] if aggs else e), c.ln)
@@ -360,8 +369,54 @@ def rule_consumers(ctx, R):
         recvs = ga.find_calls(RECV)
         other = [c for c in ga.find_calls() if c.callee.startswith('crossbeam::crossbeam_channel::Receiver::') and
                  c.name in ('try_recv', 'recv_timeout', 'recv_deadline', 'try_iter')]
-        n += 1
-        ctx.check(len(recvs) == 1 and not other, R, ga, 'get_all:blocking-recv', 'one blocking recv per expected chunk',
+        if not recvs:
+            # adaptor form: `(0..self.count()).fold(Vec::new(), |mut acc, _| { recv ..; acc })` / for_each / map
+            from lib import all_closures, adaptor_of_closure, subst_upvars
+            F = ctx.F
+            for cb in all_closures(F, ga):
+                crs = cb.find_calls(RECV)
+                other += [c for c in cb.find_calls() if c.callee.startswith(
+                    'crossbeam::crossbeam_channel::Receiver::') and c.name in ('try_recv', 'recv_timeout',
+                                                                                'recv_deadline', 'try_iter')]
+                if not crs:
+                    continue
+                ctx.read(cb)
+                pb, ac = adaptor_of_closure(F, ga, cb)
+                n += 1
+                ctx.check(len(crs) == 1 and not other, R, ga, 'get_all:blocking-recv',
+                          'one blocking recv per expected chunk', 'get_all does not use one blocking recv per expected '
+                          'chunk (recv sites: %d, non-blocking/timeout receives: %s): late chunks are dropped' % (
+                              len(crs), [c.name for c in other]))
+                okb = False
+                detail = ''
+                if ac is not None and ac.name in ('fold', 'for_each', 'map', 'try_fold', 'flat_map'):
+                    chain = subst_upvars(F, pb, ExprBuilder(pb).arg(ac, 0))
+                    detail = repr(chain)[:120]
+                    rng = [y for y in chain.walk() if y.kind == 'agg' and y.name.endswith('Range::Range') and len(y.args) == 2]
+                    dropping = [y.name.rsplit('::', 1)[-1] for y in chain.walk() if y.kind == 'call' and
+                                y.name.rsplit('::', 1)[-1] in ('take', 'skip', 'step_by', 'filter', 'take_while',
+                                                               'skip_while', 'rev_take')]
+                    if rng and not dropping:
+                        lo, hi = rng[0].args
+                        okb = lo.kind == 'const' and str(lo.const.get('v')) == '0' and hi.strip().kind == 'call' and \
+                            hi.strip().args and hi.strip().args[0].strip().kind == 'place' and \
+                            hi.strip().args[0].strip().root == ('param', 1)
+                n += 1
+                ctx.check(okb, R, ga, 'get_all:loop-over-count', 'recv once per element of 0..count(): ' + detail,
+                          'the receive is not executed exactly once per expected chunk (it runs per element of %s): '
+                          'chunks are lost or the caller blocks forever' % (detail or 'an unrecognised iteration'),
+                          crs[0].ln)
+                r = count_on_paths(cb, 0, cb.returns(), [crs[0].bb])
+                n += 1
+                ctx.check(r == (1, 1), R, ga, 'get_all:one-recv-per-iteration', str(r),
+                          'one step over the expected chunks receives %s times' % (r,))
+                n += 1
+                ctx.ok(R, ga, 'get_all:single-loop-exit', 'an adaptor over 0..count() has no early exit')
+            recvs_done = True
+        else:
+            recvs_done = False
+        n += 1 if not recvs_done else 0
+        ctx.check(len(recvs) == 1 and not other or recvs_done, R, ga, 'get_all:blocking-recv', 'one blocking recv per expected chunk',
                   'get_all does not use one blocking recv per expected chunk (recv sites: %d, non-blocking/timeout '
                   'receives: %s): late chunks are dropped' % (len(recvs), [c.name for c in other]))
         from lib import counting_loops
@@ -737,7 +792,11 @@ def rule_merge_owned(ctx, R):
         site = d[3]['ln'] if d[0] == 'assign' else d[2].ln
         if hands_out:
             okc = any(k.kind == 'discr' and k.variants in ({'Ok'}, {'Continue'}) and any(
-                y.kind == 'call' and y.extra is me for y in k.expr.walk()) for k in conds)
+                y.kind == 'call' and y.extra is me for y in k.expr.walk()) for k in conds) or any(
+                # `res.is_ok()` / `!res.is_err()` on the merge result
+                k.kind == 'bool' and k.truth is not None and k.expr.kind == 'call' and
+                (k.expr.name.rsplit('::', 1)[-1], k.truth) in (('is_ok', True), ('is_err', False)) and any(
+                    y.kind == 'call' and y.extra is me for y in k.expr.walk()) for k in conds)
             flag = [k for k in conds if k.kind == 'bool' and k.expr.strip().kind == 'place' and
                     k.expr.strip().root == ('param', 5)]
             okf = bool(flag) and all(k.truth is True for k in flag)
